@@ -29,8 +29,8 @@ Ltac prem_leaf :=
   try reflexivity.
 
 Ltac poly_leaf :=
-  replace 6.3710e6 with (6371 * 1000) by lra;
-  match goal with |- context [?r / (6371 * 1000)] => generalize (r / (6371 * 1000)) end;
+  try replace (6371 * 1000) with 6371000 by lra;
+  match goal with |- context [?r / 6371000] => generalize (r / 6371000) end;
   let x := fresh "x" in intro x;
   replace (x ^ 2) with (x * x) by ring; replace (x ^ 3) with (x * x * x) by ring;
   generalize (x * x * x); generalize (x * x); intros; lra.
@@ -62,7 +62,6 @@ Ltac cmc_leaf :=
   unfold CoreMantleCrustModel_density, shell_density, CoreMantleCrustModel_radii, CoreMantleCrustModel_densities, const_funs;
   cbn [shell_conds piecewise map];
   unfold CoreMantleCrustModel_earth_radius in *;
-  replace 1.2e13 with 12000000000000 by lra;
   pose proof sqrt_core_bounds;
   decide_cmp; cbn [andb]; try reflexivity.
 
@@ -455,11 +454,20 @@ Proof.
     rewrite IH. rewrite S_INR. simpl. ring.
 Qed.
 
+Lemma lin_go_grid h : forall n a, lin_go (INR a) h n = grid h a n.
+Proof.
+  induction n as [|n IH]; intro a; [reflexivity|].
+  change (lin_go (INR a) h (S n)) with (INR a * h :: lin_go (INR a + 1) h n).
+  change (grid h a (S n)) with (INR a * h :: grid h (S a) n).
+  rewrite <- S_INR, IH. reflexivity.
+Qed.
+
 Lemma linspace01_grid k : (1 <= k)%Z ->
   linspace01 (k + 1) = grid (/ IZR k) 0 (S (Z.to_nat k)).
 Proof.
-  intro Hk. unfold linspace01, grid. replace (k + 1 - 1)%Z with k by lia.
-  replace (Z.to_nat (k + 1)) with (S (Z.to_nat k)) by lia. reflexivity.
+  intro Hk. unfold linspace01. replace (k + 1 - 1)%Z with k by lia.
+  replace (Z.to_nat (k + 1)) with (S (Z.to_nat k)) by lia.
+  change 0 with (INR 0) at 1. apply lin_go_grid.
 Qed.
 
 Lemma grid_last h : forall n a, last (grid h (S a) n) (INR a * h) = INR (a + n) * h.
@@ -628,9 +636,8 @@ Proof.
     rewrite Hm. unfold vscale, vx, vy, vz; simpl. f_equal; try f_equal; lra. }
   split; [assumption|]. rewrite Hv.
   unfold disc, exit_distance, disc, shift, vdot, vx, vy, vz, PREM_earth_radius; simpl.
-  assert (D : (0 * 0 + 0 * 0 + (-1000 + 6.3710e6) * -1) * ((0 * 0 + 0 * 0 + (-1000 + 6.3710e6) * -1) * 1) -
-              (0 * 0 + 0 * 0 + (-1000 + 6.3710e6) * (-1000 + 6.3710e6)) + 6.3710e6 * (6.3710e6 * 1) = 6.3710e6 * 6.3710e6) by ring.
-  rewrite D. split; [nra|].
+  match goal with |- 0 < ?D /\ _ => replace D with (6371000 * 6371000) by ring end.
+  split; [nra|].
   rewrite sqrt_square by lra. lra.
 Qed.
 
